@@ -23,8 +23,10 @@ pub proof fn lemma_compose_def_is_exists<Ptr: DDNNFPtr>(f: Ptr, lbl: VarLabel, g
 //%% @pub
 //%% end
 
-// ---- contract of src/builder/mod.rs `BottomUpBuilder` (methods not under contract are not mirrored:
-//      compile_cnf) ----
+//%% include trusted/literal.rs
+//%% include trusted/cnf_stub.rs
+
+// ---- contract of src/builder/mod.rs `BottomUpBuilder` ----
 pub trait BottomUpBuilder<'a, Ptr: DDNNFPtr> {
     /// builder invariant
     spec fn bu_inv(&self) -> bool;
@@ -65,6 +67,17 @@ pub trait BottomUpBuilder<'a, Ptr: DDNNFPtr> {
             self.ok(r),
             self.shape2(a) && self.shape2(b) ==> self.shape2(r), // #C02
             forall|env: Env| #![trigger tr(env)] #![trigger r.sem(env)] tr(env) ==> r.sem(env) == (a.sem(env) && b.sem(env)); // #SEM
+
+    /// the diagram of a clause list: exactly the assignments that satisfy every clause (empty list: true; an empty
+    /// clause: false)
+    fn compile_cnf(&'a self, cnf: &Cnf) -> (r: Ptr)
+        requires
+            self.bu_inv(),
+            forall|i: int, j: int| 0 <= i < cnf.cls().len() && 0 <= j < cnf.cls()[i].len() ==> self.lbl_ok((#[trigger] cnf.cls()[i][j]).lbl),
+        ensures
+            self.ok(r),
+            self.shape2(r), // #C02
+            forall|env: Env| #![trigger tr(env)] #![trigger r.sem(env)] tr(env) ==> r.sem(env) == cnf_holds(cnf.cls(), env); // #SEM
 
 //%% extract src/builder/mod.rs :: trait BottomUpBuilder<'a, Ptr> :: fn or
 //%% @ret r
